@@ -62,7 +62,7 @@ NoiseOK(ev) ==
   /\ Abs(ev.sig2_e4 - Sig2E4(ev.cfg.k, ev.n, ev.cfg.bps, ev.ebn0_e3)) <= 3 + ev.sig2_e4 \div 500
   /\ Within(ev.ma_e, ev.ma_r, 3) /\ Within(ev.m2_e, ev.m2_r, 4)        \* 10 standard errors at N >= 1e5
   /\ (ev.uselag => Within(ev.lag_e, ev.lag_r, 4))                      \* independence between neighbouring LLRs / I and Q
-  /\ Abs(ev.mean_e) * 100 <= 3 * ev.ma_r                               \* zero mean (random data)
+  /\ Abs(ev.mean_e - ev.mean_r) * 100 <= 3 * ev.ma_r                   \* same mean as the reference chain (zero unless the code has a constant bit)
   \* EVERY transmitted position of the frame carries noise (a continuous value: practically all frames differ there), every
   \* punctured position is exactly zero in every frame
   /\ ev.dup_frames = 0                                                  \* no frame is delivered twice (by one worker or by two)
